@@ -25,8 +25,21 @@ def main():
                 match(["v", "id"], "!=", "2"), match(["v", "attr", "k"], "==", "v"), match(["k"], "==", "a")]
         b0 = len(atoms)
         atoms += body
-        cpaths = [k for k in keys if len(k) >= 2]
-        rnd.shuffle(cpaths)
+        allp = []
+        for d in data["docs"]:
+            vlib.walk_paths(d["av"], [], depth, allp, False)
+
+        def is_coll(node):
+            nd = node["to"] if node and node["k"] == "ptr" else node
+            return bool(nd) and nd["k"] in ("list", "map")
+
+        def odd(node):
+            j = json.dumps(node)[:3000]
+            return "~" in j or "a/b" in j or '"007"' in j
+        cp = sorted({tuple(p) for p, node in allp if p and is_coll(node)})
+        rnd.shuffle(cp)
+        first = sorted({tuple(p) for p, node in allp if p and is_coll(node) and odd(node)})
+        cpaths = first + [k for k in cp if k not in first]
         colls = []
         for key in cpaths[:(8 if quick else 30)]:
             mode = rnd.choice(["default", "value", "both"])
